@@ -41,7 +41,17 @@ def main():
                 print(f"{m['id']}: SKIP (pattern occurs {src.count(m['old'])}x)")
                 results.append((m["id"], "skip"))
                 continue
-            open(fn, "w").write(src.replace(m["old"], m["new"]))
+            src = src.replace(m["old"], m["new"])
+            bad_extra = False
+            for o, n in m.get("extra", []):
+                if src.count(o) != 1:
+                    bad_extra = True
+                src = src.replace(o, n)
+            if bad_extra:
+                print(f"{m['id']}: SKIP (extra pattern not unique)")
+                results.append((m["id"], "skip"))
+                continue
+            open(fn, "w").write(src)
             env = dict(os.environ, VERIF_REPO_ROOT=tmp, VERIF_NO_EVIDENCE="1")
             for prop in m["props"]:
                 r = subprocess.run([PY, os.path.join(HERE, "vcheck.py"), prop, "--tier", a.tier], env=env, cwd=HERE,
@@ -63,6 +73,13 @@ def main():
             shutil.rmtree(tmp, ignore_errors=True)
     caught = sum(1 for _, v in results if v == "caught")
     print(f"mutants caught {caught}/{len(results)}")
+    if not a.only and not a.prop:
+        with open(os.path.join(HERE, "tools", "mutants", "RESULTS.md"), "w") as f:
+            f.write("# Mutation campaign (quick tier of the property each patch breaks)\n\n")
+            f.write(f"caught {caught}/{len(results)}\n\n| mutant / check | verdict | change |\n|---|---|---|\n")
+            desc = {m["id"]: m["desc"] for m in muts}
+            for k, v in results:
+                f.write(f"| {k} | {v} | {desc.get(k.split('/')[0], '')} |\n")
 
 
 if __name__ == "__main__":
